@@ -315,9 +315,10 @@ fn dispatch_c12(cmd: &str, args: &[String], tier: &String, seed: u64, out: &Stri
     let out = out.clone();
     Some(match cmd {
         "c12" => {
-            props::c12::run(&tier, seed, &out);
+            props::c12::run(&tier, seed, &out, arg(&args, "--engine").as_deref());
             0
         }
+        "c12-session" => props::c12::replay_session(&arg(&args, "--stm").unwrap(), &arg(&args, "--cmds").unwrap(), arg(&args, "--own-time").unwrap().parse().unwrap(), arg(&args, "--own-inc").unwrap().parse().unwrap()),
         "c12-pair" => props::c12::replay_pair(&arg(&args, "--stm").unwrap(), &arg(&args, "--first").unwrap(), &arg(&args, "--second").unwrap(), arg(&args, "--own-time").unwrap().parse().unwrap(), arg(&args, "--own-inc").unwrap().parse().unwrap()),
         "c12-spend" => props::c12::replay_spend(&arg(&args, "--fen").unwrap(), arg(&args, "--time").unwrap().parse().unwrap(), arg(&args, "--inc").unwrap().parse().unwrap()),
         "c12-one" => props::c12::replay(&arg(&args, "--stm").unwrap(), &arg(&args, "--line").unwrap(), arg(&args, "--own-time").unwrap().parse().unwrap(), arg(&args, "--own-inc").unwrap().parse().unwrap()),
